@@ -40,8 +40,8 @@ class History(object):
 
     def on_accept(self, node, ind):
         # a node accepts a customer while it is itself in the middle of re-routing a pre-empted customer
-        if self.rerouting_from is not None and node.id_number == self.rerouting_from and self.hub.in_event \
-                and _called_from("reroute", 40):
+        # (no test of hub.in_event: in exact mode there is no node_class seam and the flag stays False)
+        if self.rerouting_from is not None and node.id_number == self.rerouting_from and _called_from("reroute", 40):
             self._mark("accept_during_own_reroute")
 
     def on_detach(self, server):
